@@ -13,8 +13,14 @@ RULE = ("generated applications (3 levels; per level a random subset of char/int
         "enumerated (#3) and pointer sub-trees; preset selectors with dependent defaults; toggles that allocate / free "
         "a pointer sub-tree; enabled-by on embedded sub-trees in its three forms: sibling toggle, toggle inside the sub-tree, rSelf) x states reached by 0..14 random parameter messages "
         "(in range, at and beyond each bound, type extremes, symbols, strings with quotes/newlines/%/backslashes); "
+        "every 5th application is a HISTORY on one instance: messages, save, more messages (a preset selector moved to another "
+        "entry of its table, one of its dependents put back on the old entry's default), save again - two or three saves, each file "
+        "judged against the state at that moment and loaded into a fresh instance; around every save get_changed_values is called "
+        "twice and get_default_value directly for every existing port (forwards and backwards); every 9th application has port names "
+        "of 18..34 characters (addresses of 20..105 columns: the saved line breaks right behind its address); rSelf(.., rEnabledBy) "
+        "also on the root table; "
         "plus hand-written files with a wrong header, another application name, an unparsable line, a line no port "
-        "accepts.  Non-trivial = at least 2 saved lines or a rejected file.")
+        "accepts.  Non-trivial = at least 2 saved lines (history: at least 2 non-empty files) or a rejected file.")
 TRUSTED = ["harness/h_C12.cpp + h_C12_app.h + h_C12_node.inc: the application family (macro-generated callbacks, run-time "
            "port tables, rChangeCb hook for preset selectors and pointer sub-tree toggles), the state dump, the use of the "
            "library's own scanner (rtosc_scan_message + arg-val iterator) to read the saved lines back",
@@ -70,7 +76,13 @@ def gen(rng, tier, dist):
         opts = {"p_soft": 0.3 if rng.random() < 0.3 else 0.0, "p_rdep": 0.2,
                 # the inner-switch ("child/toggle") and rSelf forms of "enabled by" (save_common.gen_level;
                 # D30 / D32 fixed, D31 = cyclic metadata: notes/C12.md stage 4)
-                "p_inner": 0.4 if rng.random() < 0.3 else 0.0, "p_self": 0.4 if rng.random() < 0.25 else 0.0}
+                "p_inner": 0.4 if rng.random() < 0.3 else 0.0, "p_self": 0.4 if rng.random() < 0.25 else 0.0,
+                # rSelf(.., rEnabledBy(x)) on the root table itself
+                "p_self0": 0.5 if c % 8 == 5 else 0.0}
+        if c % 9 == 4:
+            # long port names: addresses of 20..105 columns (a saved line breaks right behind the address)
+            opts["long_names"] = True
+            opts["p_sub"], opts["p_arr"] = 0.8, 0.6
         if c % 12 == 11:
             app = sc.static_app()         # the macro-made application
             ref = sc.Ref(app)
@@ -78,12 +90,17 @@ def gen(rng, tier, dist):
             app, ref = one_app(rng, tier, dist, opts)
         tree, flat, apro = app.tree(), sc.flat_text(ref.flat), sc.apro_text(app, ref.flat, ref.dirs)
         r = rng.random()
-        if r < 0.8 or not ref.flat:
+        if c % 5 == 2 and ref.flat:
+            # one instance saved two or three times, with messages (changes of preset selectors among them) in between
+            out.append(gen_hist(rng, app, ref, tree, flat, apro, dist))
+        elif r < 0.8 or not ref.flat:
             nops = rng.choice([0, 1, 2, 3, 5, 8, 14])
             # every 10th application also receives messages whose states the file does not carry: +-inf
             # on float ports, a symbol outside the map on a scalar option port (finding classes, see classify)
             exotic = 0.15 if c % 10 == 3 else 0.0
-            ops, mops = sc.gen_ops(rng, ref, nops, exotic=exotic, fill=0.3)
+            ops, mops = sc.gen_ops(rng, ref, nops, exotic=exotic, fill=0.9 if opts.get("long_names") else 0.3)
+            if opts.get("long_names"):
+                dist["save: application with long port names"] = dist.get("save: application with long port names", 0) + 1
             if exotic:
                 dist["save with non-finite floats / unknown option symbols among the messages"] = \
                     dist.get("save with non-finite floats / unknown option symbols among the messages", 0) + 1
@@ -95,6 +112,72 @@ def gen(rng, tier, dist):
             out.append(line)
             dist["rej " + kind] = dist.get("rej " + kind, 0) + 1
     return out
+
+# ---------------------------------------------------------------------------
+# histories on ONE instance: messages, save, more messages, save again (twice or three times).  Every
+# saved file is judged against the state at that moment and loaded into a fresh instance; between the
+# saves a preset selector is moved to another entry of its table and (half of the time) one of its
+# dependents is put back on the default the OLD entry selects - a parameter that differs from its
+# current default and would be left out by a save that still selects the old one.  Behind every save
+# get_default_value() is asked directly for the ports that exist (harness: forwards, then backwards).
+def msg_of(p, x):
+    ek = p.elem_kind()
+    if ek == "t":
+        return ("T" if x else "F", None)
+    if ek == "f":
+        return ("f", x)
+    if ek == "c":
+        return ("c", x)
+    if ek == "s":
+        return ("s", bytes(x))
+    return ("i", x)
+
+def gen_hist(rng, app, ref, tree, flat, apro, dist):
+    F = ref.flat
+    sels = sorted({fp.sel for fp in F if fp.sel is not None})
+    nseg = rng.choice([2, 2, 3])
+    all_ops, all_mops, all_ask = [], [], []
+    moved = 0
+    for k in range(nseg):
+        ops, mops = [], []
+        def put(i, kk, v):
+            path = F[i].path + (str(kk) if F[i].leaf.is_array() else "")
+            ops.append(sc.op_text(path, v))
+            mops.append(sc.mop_text(i, kk, v))
+            ref.send(i, kk, v)
+        cand = [x for x in sels if ref.exists(x)]
+        if k > 0 and cand and rng.random() < 0.85:
+            x = rng.choice(cand)
+            p = F[x].leaf
+            deps = [j for j, fq in enumerate(F) if fq.sel == x]
+            keys = sorted({kk for j in deps for kk in F[j].leaf.presets})
+            cur = ref.st[x][0]
+            vals = [v for v in set(keys + [keys[-1] + 1, p.default[0]]) if v != cur
+                    and (p.min is None or v >= p.min) and (p.max is None or v <= p.max)] if keys else []
+            if vals:
+                old = {j: ref.default_of(j) for j in deps}
+                put(x, 0, ("i", rng.choice(sorted(vals))))
+                moved += 1
+                if rng.random() < 0.5:
+                    j = rng.choice(deps)
+                    if ref.exists(j) and old[j] != ref.default_of(j):
+                        for kk, xv in enumerate(old[j]):
+                            put(j, kk, msg_of(F[j].leaf, xv))
+        nops = rng.choice([0, 1, 2, 3, 5, 8]) if k == 0 else rng.choice([0, 0, 1, 2, 4])
+        o2, m2 = sc.gen_ops(rng, ref, nops, fill=0.1 if k == 0 else 0.0)
+        if o2 != "-":
+            ops += o2.split(";")
+            mops += m2.split(";")
+        live = [i for i in range(len(F)) if ref.exists(i)]
+        if len(live) > 14:
+            keep = set(rng.sample(live, 10)) | {i for i in live if F[i].sel is not None}
+            live = [i for i in live if i in keep]
+        all_ask.append(",".join(sc.hx(F[i].path + ("0" if F[i].leaf.is_array() else "")) for i in live) or "-")
+        all_ops.append(";".join(ops) or "-")
+        all_mops.append(";".join(mops) or "-")
+    dist["hist saves=%d" % nseg] = dist.get("hist saves=%d" % nseg, 0) + 1
+    dist["hist: selector moved between two saves"] = dist.get("hist: selector moved between two saves", 0) + moved
+    return "hist %s %s %s %s %s %s" % (tree, flat, "!".join(all_ops), apro, "!".join(all_mops), "!".join(all_ask))
 
 # ---------------------------------------------------------------------------
 # hand-written files (the generator knows every byte)
@@ -248,6 +331,12 @@ def canon(case, line):
     f = case.split(" ")
     if line.startswith("CRASH") or line.startswith("BADCASE") or line == "NOOUT":
         return line
+    if f[0] == "hist":
+        # one record per save; dv (get_default_value's text) is judged by the Spec oracle only
+        save_case = " ".join(["save"] + f[1:])
+        return " ## ".join(canon(save_case, r) + " cv=%s cv2=%s" % (
+            "|".join(sorted(sc.kv_fields(r).get("cv", "-").split("|"))), sc.kv_fields(r).get("cv2"))
+            for r in line.split(" ## "))
     count_cond(line, _DIST)
     kv = sc.kv_fields(line)
     if f[0] == "save" and state_classes(case, line)[0]:
@@ -274,6 +363,67 @@ def canon(case, line):
         return "ret=%s B=%s" % (kv.get("ret"), sort_dump(kv.get("B", "-")))
     return line
 
+def check_record(ref, kv):
+    """one saved file against the state it was saved from (the A= dump) and the instance it was loaded into"""
+    if kv.get("hdr") != "1":
+        return "header: the savefile does not start with the two header lines"
+    sa, fa = sc.state_from_dump(ref, kv["A"])
+    sb, fb = sc.state_from_dump(ref, kv["B"])
+    if fa or fb:
+        return "memory: %s" % ",".join(fa + fb)
+    d = sc.check_lines(ref, sa, kv["lines"])
+    if d:
+        return "minimal: " + d
+    got = [] if kv["lines"] == "-" else kv["lines"].split("|")
+    if kv["ret"] != "%d" % len(got):
+        return "count: load_from_file returned %s for %d saved lines" % (kv["ret"], len(got))
+    d = sc.states_equal(ref, sa, sb)
+    if d:
+        return "roundtrip: " + d
+    if kv["fresh"] != "-":
+        return "untouched: a default-initialised instance saves %s" % kv["fresh"][:200]
+    return None
+
+def check_entry_points(ref, kv, asked, metas):
+    """the other entry points that consult defaults, called on the same instance: get_changed_values must list
+    exactly the differing parameters (and the same text when called again), get_default_value must return
+    the text of the port's `default <value of the port it depends on>` entry, else of its `default` entry"""
+    sa, _ = sc.state_from_dump(ref, kv["A"])
+    d = sc.check_lines(ref, sa, kv.get("cv", "-"))
+    if d:
+        return "minimal: get_changed_values: " + d
+    if kv.get("cv2") != "1":
+        return "minimal: get_changed_values gave another text when called again"
+    if asked == "-":
+        return None
+    got = {}
+    for t in kv.get("dv", "-").split(","):
+        if ":" in t:
+            a, v = t.split(":", 1)
+            got[a] = v
+    byaddr = {}
+    for i, fp in enumerate(ref.flat):
+        byaddr[sc.hx(fp.path + ("0" if fp.leaf.is_array() else ""))] = i
+    for a in asked.split(","):
+        i = byaddr[a]
+        fp = ref.flat[i]
+        m = metas.get((fp.path.count("/") - 1, fp.path.rsplit("/", 1)[1]))
+        if m is None:
+            return "crash: no metadata for %s in the case line" % fp.path
+        want = None
+        if fp.sel is not None and sa[fp.sel] is not None:
+            want = m.get("default %d" % sa[fp.sel][0])
+        if want is None:
+            want = m.get("default")
+        w = "N" if want is None else want.hex()
+        if got.get(a) != w:
+            g = got.get(a, "?")
+            h = g.split("!")[0]
+            shown = g if h in ("N", "?") else repr(bytes.fromhex(h)) + g[len(h):]
+            return "minimal: get_default_value(%s) = %s, the metadata selects %r%s" % (
+                fp.path, shown, want, "" if fp.sel is None else " (%s holds %r)" % (ref.flat[fp.sel].path, sa[fp.sel]))
+    return None
+
 def spec_check(case, impl):
     f = case.split(" ")
     if f[0] == "macro":
@@ -283,23 +433,20 @@ def spec_check(case, impl):
     kv = sc.kv_fields(impl)
     ref = sc.ref_from_flat(sc.parse_flat(f[2]))
     if f[0] == "save":
-        if kv.get("hdr") != "1":
-            return "header: the savefile does not start with the two header lines"
-        sa, fa = sc.state_from_dump(ref, kv["A"])
-        sb, fb = sc.state_from_dump(ref, kv["B"])
-        if fa or fb:
-            return "memory: %s" % ",".join(fa + fb)
-        d = sc.check_lines(ref, sa, kv["lines"])
-        if d:
-            return "minimal: " + d
-        got = [] if kv["lines"] == "-" else kv["lines"].split("|")
-        if kv["ret"] != "%d" % len(got):
-            return "count: load_from_file returned %s for %d saved lines" % (kv["ret"], len(got))
-        d = sc.states_equal(ref, sa, sb)
-        if d:
-            return "roundtrip: " + d
-        if kv["fresh"] != "-":
-            return "untouched: a default-initialised instance saves %s" % kv["fresh"][:200]
+        return check_record(ref, kv)
+    if f[0] == "hist":
+        recs = impl.split(" ## ")
+        asks = f[6].split("!")
+        if len(recs) != len(f[3].split("!")):
+            return "crash: %d records for %d saves" % (len(recs), len(f[3].split("!")))
+        metas = sc.metas_of_tree(f[1])
+        for n, r in enumerate(recs):
+            kv = sc.kv_fields(r)
+            d = check_record(ref, kv)
+            if d is None:
+                d = check_entry_points(ref, kv, asks[n], metas)
+            if d:
+                return d.split(":")[0] + ": (save %d of one instance) " % (n + 1) + d.split(":", 1)[1].strip()
         return None
     if f[0] == "rej":
         kind = f[7] if len(f) > 7 else "?"
@@ -354,6 +501,8 @@ def nontrivial(case, impl):
     kv = sc.kv_fields(impl)
     if f[0] == "save":
         return kv.get("lines", "-").count("|") >= 1
+    if f[0] == "hist":
+        return sum(1 for r in impl.split(" ## ") if sc.kv_fields(r).get("lines", "-") != "-") >= 2
     return f[0] == "rej" and len(f) > 7 and f[7] != "ok"
 
 def nonfinite(b):
